@@ -307,6 +307,10 @@ func (c *converter) trackAddedIngress() {
 				for _, hostname := range tls.Hosts {
 					c.tracker.TrackNames(convtypes.ResourceIngress, name, ctx, hostname)
 				}
+				if tls.SecretName != "" {
+					// an acme storage shared with other ingress changes its list of domains
+					c.tracker.TrackNames(convtypes.ResourceIngress, name, convtypes.ResourceAcmeData, ing.Namespace+"/"+tls.SecretName)
+				}
 			}
 		}
 		for _, rule := range ing.Spec.Rules {
